@@ -59,7 +59,13 @@ def unsign_from_foolscap(ann_t):
     claimed_key = ed25519.verifying_key_from_string(b"pub-" + claimed_key_vs)
     sig_bytes = base32.a2b(remove_prefix(sig_vs, b"v0-"))
     ed25519.verify_signature(claimed_key, sig_bytes, msg)
-    key_vs = claimed_key_vs
+    # Attribute the announcement to the key that verified it, in its one
+    # canonical spelling: base32 decoding ignores the unused trailing bits,
+    # so several strings name the same key, and a replayed announcement must
+    # not get an index of its own by respelling the key.
+    key_vs = remove_prefix(
+        ed25519.string_from_verifying_key(claimed_key), b"pub-"
+    )
     ann = json.loads(msg.decode("utf-8"))
     return (ann, key_vs)
 
